@@ -1,0 +1,61 @@
+//go:build verif
+// +build verif
+
+// Contracts for the deductive verifier in /verif (govc). Comment-only: no executable code.
+// Totality: every validator is `panics-never` — each nil dereference, index, slice and type assertion in its body is a
+// proof obligation, for every object (no precondition beyond a non-nil receiver object).
+package validation
+
+//@ func ValidateUpstreamCluster props C16
+//@   requires [obj] cluster != nil
+//@   panics-never
+
+//@ func ValidateUpstreamClusterSpec props C16
+//@   requires [obj] spec != nil
+//@   panics-never
+//@   loop 0: invariant [t] true
+
+//@ func ValidateServers props C16
+//@   panics-never
+//@   loop 0: invariant [t] true
+
+//@ func ValidateClientConfig props C16
+//@   requires [obj] clientconfig != nil
+//@   panics-never
+
+//@ func ValidateSecureServing props C16
+//@   requires [obj] serving != nil
+//@   panics-never
+
+//@ func ValidateFlowControl props C16
+//@   requires [obj] flowcontrol != nil
+//@   panics-never
+//@   loop 0: invariant [t] true
+
+//@ func ValidateLoggingConfig props C16
+//@   panics-never
+
+//@ func ValidateDispatchPolicy props C16
+//@   panics-never
+//@   loop 0: invariant [t] true
+
+//@ func ValidateRule props C16
+//@   panics-never
+//@   loop 0: invariant [t] true
+
+//@ func getURLScheme props C16
+//@   panics-never
+
+//@ func ValidateFlowControlConfiguration props C16
+//@   requires [obj] schema != nil
+//@   panics-never
+//@   ensures [acc_one] len(result) == 0 ==> (schema.Exempt != nil || schema.MaxRequestsInflight != nil || schema.TokenBucket != nil) && !(schema.Exempt != nil && schema.MaxRequestsInflight != nil) && !(schema.Exempt != nil && schema.TokenBucket != nil) && !(schema.MaxRequestsInflight != nil && schema.TokenBucket != nil)
+//@   ensures [acc_inflight] len(result) == 0 && schema.MaxRequestsInflight != nil ==> schema.MaxRequestsInflight.Max >= 0
+//@   ensures [acc_global_inflight] len(result) == 0 && schema.GlobalMaxRequestsInflight != nil ==> schema.MaxRequestsInflight != nil && schema.GlobalMaxRequestsInflight.Max >= schema.MaxRequestsInflight.Max && schema.GlobalMaxRequestsInflight.Max >= 0
+//@   ensures [acc_bucket] len(result) == 0 && schema.TokenBucket != nil ==> schema.TokenBucket.QPS != 0 && schema.TokenBucket.Burst >= schema.TokenBucket.QPS
+//@   ensures [acc_global_bucket] len(result) == 0 && schema.GlobalTokenBucket != nil ==> schema.TokenBucket != nil && schema.GlobalTokenBucket.QPS != 0 && schema.GlobalTokenBucket.QPS >= schema.TokenBucket.QPS && schema.GlobalTokenBucket.Burst >= schema.TokenBucket.Burst
+
+//@ func validateTokenBucketFlowControlSchema props C16
+//@   requires [obj] tokenBucket != nil
+//@   panics-never
+//@   ensures [acc] len(result) == 0 ==> tokenBucket.QPS != 0 && tokenBucket.Burst >= tokenBucket.QPS
